@@ -33,7 +33,7 @@ claim("C02", "proof",
       "DESIGN.md 5.C02")
 
 claim("C07", "proof",
-      "Static proof: (L1) every operator impl and inherent method of the optional-matrix container satisfies alpha(result) == op(alpha(operands)) in every presence case; (L2) every arithmetic, chain-rule, elementary-function, power, scalar-operand and in-place operation of DualVec, Dual2Vec, HyperDualVec is discharged under all 2^k presence patterns against the same spec; (access) no code outside impl Derivative projects the presence flag. In-place lane updates (SimdValue replace/extract/select) of the vector types and of the container respect absent == zero (rule set of C11). Sequences of in-place updates follow by induction (each step preserves alpha).",
+      "Static proof: (L1) every operator impl and inherent method of the optional-matrix container satisfies alpha(result) == op(alpha(operands)) in every presence case; (L2) every arithmetic, chain-rule, elementary-function, power, scalar-operand and in-place operation of DualVec, Dual2Vec, HyperDualVec is discharged under all 2^k presence patterns against the same spec; (access) no code outside impl Derivative projects the presence flag. In-place lane updates (SimdValue replace/extract/select) of the vector types and of the container respect absent == zero (rule set of C11). The 1x1 accessor Derivative::unwrap yields zero for an absent part. Sequences of in-place updates follow by induction (each step preserves alpha).",
       TB,
       "abstract interpretation with Option semantics over typed HIR + who-may-access rule on resolved field projections",
       "DESIGN.md 5.C07")
@@ -85,12 +85,12 @@ claim("C16", "other",
       "structural rules on the type-checked derive expansion (typed HIR)",
       "DESIGN.md 5.C16")
 claim("C17", "other",
-      "Structural + canonical-form rules over the pyo3 wrapper layer (python configuration, 56 classes): 1736 named methods are exactly self.0.<mapped Rust item>(args in order).into(); 224 binary dunders compute self.0 OP r with their own operator and self on the left in every extract branch; 280 reflected operators / negations evaluate to the canonical form of lhs OP self; __pow__ tries i32->powi, f64->powf, Self->powd in order; constructors are positional; 55 length-dispatched driver arms use one length for the array, the SVector types and the class, call the try_ function of their own name with the driver's parameters in declaration order (closures hand their parameters to the Python callable in order) and convert matrices by rows; all 10 #[pyfunction]s and every constructible class are registered. The length dispatch of each driver has one arm per size (no size twice, no hole) and a class named ..._<n> wraps the number type of dimension n. The embedded interpreter and numpy object arrays at run time are NOT decided.",
+      "Structural + canonical-form rules over the pyo3 wrapper layer (python configuration, 56 classes): 1736 named methods are exactly self.0.<mapped Rust item>(args in order).into(); 224 binary dunders compute self.0 OP r with their own operator and self on the left in every extract branch; 280 reflected operators / negations evaluate to the canonical form of lhs OP self; __pow__ tries i32->powi, f64->powf, Self->powd in order; constructors are positional; 55 length-dispatched driver arms use one length for the array, the SVector types and the class, call the try_ function of their own name with the driver's parameters in declaration order (closures hand their parameters to the Python callable in order) and convert matrices by rows; all 10 #[pyfunction]s and every constructible class are registered. The length dispatch of each driver has one arm per size (no size twice, no hole) and a class named ..._<n> wraps the number type of dimension n. Getters get_<k-th>_derivative return exactly the parts of derivative order k in declared order; result tuples of the drivers are passed on component by component. The embedded interpreter and numpy object arrays at run time are NOT decided.",
       "trusted: rustc expansion and type checker (pyo3 macro output as compiled), the exporter, structural walkers, name table A.6",
       "forwarding / who-calls-what rules on resolved callees of the typed HIR + canonical-form evaluation of reflected operators",
       "DESIGN.md 5.C17")
 claim("C18", "other",
-      "Display::fmt of all 8 types (Derivative::fmt inlined) is evaluated against an output-buffer formatter using the FormatArgs templates of the expanded AST: along every path (all presence patterns; unit vs non-unit dimensions) the token sequence is the real part, then for every present part in declared order exactly once ` + `, all its elements (single element only under the 1x1 guard), a non-empty symbol; absent parts print nothing; placeholders are plain Display; symbols are pairwise distinct, parse-safe after a number and equal to the documented ones; __repr__ forwards to to_string (thorough, python configuration). Float-to-string round trip is a std guarantee.",
+      "Display::fmt of all 8 types (Derivative::fmt inlined) is evaluated against an output-buffer formatter using the FormatArgs templates of the expanded AST: along every path (all presence patterns; unit vs non-unit dimensions) the token sequence is the real part, then for every present part in declared order exactly once ` + `, all its elements (single element only under the 1x1 guard), a non-empty symbol; absent parts print nothing; placeholders are plain Display; symbols are pairwise distinct, parse-safe after a number and equal to the documented ones; __repr__ forwards to to_string (thorough, python configuration). The symbol of a higher-order part is the product of the first-order symbols of its directions (or all symbols are the field names). Float-to-string round trip is a std guarantee.",
       "trusted: rustc parser/expander (FormatArgs), the exporter, the interpreter; nalgebra's matrix Display prints every element",
       "abstract interpretation with an output-buffer domain over typed HIR + expanded-AST format templates",
       "DESIGN.md 5.C18")
@@ -101,7 +101,7 @@ claim("C10", "other",
       "abstract interpretation with a finiteness/sign lattice (+ exponent intervals) over typed HIR",
       "DESIGN.md 5.C10")
 claim("C12", "other",
-      "NARROW claim (linalg configuration). Guard (decided on the interpreted paths of LU::new): some path reports an error; every path that divides by the pivot has excluded a zero pivot magnitude; the tested magnitude is |a[m,i]| for the row m searched over the remaining rows i..n and that element is the pivot divided by (m = i or rows exchanged); LU values can only be produced by LU::new; branch conditions use real parts, counters, sizes or the scalar's own comparison items. Formula level (element-wise abstract interpretation of the loop nests and iterator pipelines with symbolic indices, store-to-load forwarding, composition of per-element effects with canonical sums, arrays named by the role they are returned in): LU::new is Doolittle elimination with whole-row partial pivoting statement by statement, on every path row exchange / permutation exchange / parity counter move together; solve and inverse are forward/back substitution on the permuted right-hand side (inverse: permuted unit vectors); determinant is the product of the pivots negated exactly for odd parity; the Jacobi sweep stops early only on a quantity over the whole strict upper triangle, rotates only on paths excluding a_pq = 0, drops an element without rotation only after testing both diagonal elements, uses the textbook t, c, s, tau and rotation formulas on all four index ranges, updates diagonal/accumulator, annihilates a_pq, and the final selection sort is ascending and exchanges eigenvector columns with their eigenvalues; the field-trait methods nalgebra's decompositions call and the element operations (+ - * /, compound assignment, also with absent derivative parts) are the verified dual operations. NOT decided (declared out of reach): A x = b, A A^-1 = I, A V = V diag(lambda), Jacobi's formula, Hellmann-Feynman, convergence, tolerances, nalgebra's own decompositions.",
+      "NARROW claim (linalg configuration). Guard (decided on the interpreted paths of LU::new): some path reports an error; every path that divides by the pivot has excluded a zero pivot magnitude; the tested magnitude is |a[m,i]| for the row m searched over the remaining rows i..n and that element is the pivot divided by (m = i or rows exchanged); LU values can only be produced by LU::new; branch conditions use real parts, counters, sizes or the scalar's own comparison items. Formula level (element-wise abstract interpretation of the loop nests and iterator pipelines with symbolic indices, store-to-load forwarding, composition of per-element effects with canonical sums, arrays named by the role they are returned in): LU::new is Doolittle elimination with whole-row partial pivoting statement by statement, on every path row exchange / permutation exchange / parity counter move together; solve and inverse are forward/back substitution on the permuted right-hand side (inverse: permuted unit vectors); determinant is the product of the pivots negated exactly for odd parity; the Jacobi sweep stops early only on a quantity over the whole strict upper triangle, rotates only on paths excluding a_pq = 0, drops an element without rotation only after testing both diagonal elements, uses the textbook t, c, s, tau and rotation formulas on all four index ranges, updates diagonal/accumulator, annihilates a_pq, and the final selection sort is ascending and exchanges eigenvector columns with their eigenvalues; the field-trait methods nalgebra's decompositions call and the element operations (+ - * /, compound assignment, also with absent derivative parts) are the verified dual operations. norm(x) is the square root of the sum of squares; the pivot candidate and the quantity the sweeps stop on are magnitudes; loop ranges are those of the schemes. NOT decided (declared out of reach): A x = b, A A^-1 = I, A V = V diag(lambda), Jacobi's formula, Hellmann-Feynman, convergence, tolerances, nalgebra's own decompositions.",
       "trusted: rustc type checker and name resolution, the exporter, structural walkers; no loop invariants of the numerical algorithms are established",
       "tree-dominance and pairing rules on structured typed HIR",
       "DESIGN.md 5.C12")
